@@ -372,16 +372,23 @@ fn build_sidecar(parquet_path: &Path, dir: &Path, src_meta: &std::fs::Metadata) 
 /// the OS under pressure, never anonymous memory, so the engine's no-OOM
 /// guarantee is unaffected.
 /// Lowercased names of the DICTIONARY-typed columns a sidecar stores
-/// (from rg_00000's footer schema). Cached per directory. Read gates use
-/// it: a scan that wants dict coercion may take the IPC path only when
-/// every requested column is stored dict.
+/// (from rg_00000's footer schema). Cached per (directory, `.complete`
+/// stamp): a sidecar rebuilt after its parquet file was replaced lives in
+/// the SAME directory but may store a different schema, and its new stamp
+/// gives it a new entry. Read gates use it: a scan that wants dict coercion
+/// may take the IPC path only when every requested column is stored dict.
 pub fn sidecar_dict_cols(dir: &Path) -> std::collections::HashSet<String> {
     static CACHE: std::sync::OnceLock<
-        std::sync::Mutex<std::collections::HashMap<PathBuf, std::collections::HashSet<String>>>,
+        std::sync::Mutex<
+            std::collections::HashMap<PathBuf, (String, std::collections::HashSet<String>)>,
+        >,
     > = std::sync::OnceLock::new();
     let cache = CACHE.get_or_init(Default::default);
-    if let Some(hit) = cache.lock().unwrap().get(dir) {
-        return hit.clone();
+    let stamp = std::fs::read_to_string(dir.join(".complete")).unwrap_or_default();
+    if let Some((s, hit)) = cache.lock().unwrap().get(dir) {
+        if *s == stamp {
+            return hit.clone();
+        }
     }
     let cols = (|| -> Option<std::collections::HashSet<String>> {
         let f = File::open(rg_path(dir, 0)).ok()?;
@@ -400,7 +407,7 @@ pub fn sidecar_dict_cols(dir: &Path) -> std::collections::HashSet<String> {
     cache
         .lock()
         .unwrap()
-        .insert(dir.to_path_buf(), cols.clone());
+        .insert(dir.to_path_buf(), (stamp, cols.clone()));
     cols
 }
 
